@@ -212,6 +212,7 @@ type nodeDB struct {
 	in             *memorydb.DB
 	keys           map[string]struct{}
 	added, removed int
+	overwritten    int // Put of an existing key with a different value (never happens: keys are content hashes)
 }
 
 func newNodeDB() *nodeDB { return &nodeDB{in: memorydb.New(), keys: map[string]struct{}{}} }
@@ -221,6 +222,8 @@ func (d *nodeDB) Put(key, val []byte) error {
 	if _, ok := d.keys[string(key)]; !ok {
 		d.keys[string(key)] = struct{}{}
 		d.added++
+	} else if old, err := d.in.Get(key); err != nil || !bytes.Equal(old, val) {
+		d.overwritten++
 	}
 	d.mu.Unlock()
 	return d.in.Put(key, val)
@@ -310,6 +313,8 @@ type world struct {
 	leak        string
 	ctx         *mc.Ctx
 	checked     bool
+	lastKind    int
+	fullCheck   bool // replay mode: read every live root after every step
 }
 
 func must(err error) {
@@ -606,7 +611,8 @@ func (w *world) do(op opDef) {
 		return
 	}
 	bufBefore := w.bufLen()
-	w.db.added, w.db.removed, w.ewl.evicted, w.ewl.kept = 0, 0, 0, 0
+	w.db.added, w.db.removed, w.db.overwritten, w.ewl.evicted, w.ewl.kept = 0, 0, 0, 0, 0
+	w.lastKind = op.kind
 	liveBefore := len(w.blocks) - w.lowLive
 	wasBlocked := w.blocked > 0
 	switch {
@@ -809,8 +815,23 @@ func (w *world) check() {
 		w.fail("current-root-differs-from-head", fmt.Sprintf("RootHash()=%s err=%v head=%s", hx(rh), err, hx(w.head().root)))
 		return
 	}
+	// Incremental evaluation. The BFS reaches this state by one step from a state in which
+	// every live root was read completely and found equal to its reference. Trie-node keys are
+	// content hashes, so what a root reads can only change when a node is removed (or a key
+	// overwritten with different bytes - counted, never observed). Therefore: after a step that
+	// removed/overwrote nothing, only a root that is new in this step (the head after a block)
+	// has to be read; after finalize/rollback steps and after any step that removed or
+	// overwrote a node, every live root is read again.
+	full := w.fullCheck || w.db.removed > 0 || w.db.overwritten > 0 || w.lastKind == kFinalize || w.lastKind == kRollback || w.lastKind == kCfg
+	lowest := w.lowLive
+	if !full {
+		lowest = len(w.blocks) // nothing
+		if isBlock(w.lastKind) {
+			lowest = len(w.blocks) - 1
+		}
+	}
 	reach := map[string]struct{}{}
-	for i := len(w.blocks) - 1; i >= w.lowLive; i-- {
+	for i := len(w.blocks) - 1; i >= lowest; i-- {
 		which := "older-live-root"
 		if i == len(w.blocks)-1 {
 			which = "current-root"
@@ -820,8 +841,11 @@ func (w *world) check() {
 			return
 		}
 	}
-	// second oracle (classification only, never a violation): at quiescent points the DB holds
-	// nothing but nodes reachable from live roots
+	if !(w.lastKind == kFinalize || w.lastKind == kRollback) {
+		return
+	}
+	// second oracle (classification only, never a violation): at quiescent points reached by a
+	// finalize/rollback step the DB holds nothing but nodes reachable from live roots
 	if w.blocked == 0 && w.prunedSinceUnblock {
 		if w.bufLen() == 0 {
 			surplus := 0
@@ -949,7 +973,7 @@ func replay(c *mc.Ctx, full []opDef) {
 	if err := json.Unmarshal(c.ReplayData, &hist); err != nil {
 		c.Fatal("replay data is not a list of operation names: %v", err)
 	}
-	w := &world{}
+	w := &world{fullCheck: true}
 	defer w.close()
 	for i, n := range hist {
 		op := subMenu(full, []string{n})[0]
@@ -987,6 +1011,12 @@ func main() {
 			must(err)
 			must(pprof.StartCPUProfile(f))
 			defer pprof.StopCPUProfile()
+			defer func() {
+				mf, err := os.Create(*prof + ".mem")
+				must(err)
+				must(pprof.Lookup("allocs").WriteTo(mf, 0))
+				mf.Close()
+			}()
 		}
 		menu := buildMenu()
 		coreMenu := subMenu(menu, coreOps)
@@ -1013,7 +1043,8 @@ func main() {
 			"EnterPruningBufferingMode/ExitPruningBufferingMode are called directly on the real trieStorageManager (models a snapshot in progress; the concurrent snapshot itself is C10); nesting depth is capped at 1 because IsPruningBlocked only tests the counter against 0; Exit at 0 (logged no-op) is not offered; pruning buffer length 1000 (never full here)",
 			"the oracle reads through a separate trie + read-only AccountsDB over the same DB with a pruning-less storage manager, so it never touches the real storage manager, the waiting list or the accounts DB under test; the storage manager's only goroutine (storageProcessLoop) idles on its request channel for the whole run (no snapshot/checkpoint request is ever sent; the checkpoint hashes holder never fills), every pruning call is synchronous",
 			"state key = config, blocked counter, final/head/lowest-live index, queue content, live blocks (root + reference state), RootHash, lastRootHash, trie DB key set, every waiting-list entry (key, cache-or-DB residence, hash set), pruning-buffer content, leak-classification flags, and the in-memory shape of the main trie (resolved/collapsed/dirty per node)",
-			"leak classification (DB keys not reachable from any live root at a quiescent point: not blocked, buffer empty, a prune executed since the last unblock) is reported in counters only, never as a violation",
+			"leak classification (DB keys not reachable from any live root at a quiescent point reached by a finalize/rollback step: not blocked, buffer empty, a prune executed since the last unblock) is reported in counters only, never as a violation",
+			"incremental oracle: every explored state is one step away from a state whose live roots were all read completely; trie-node keys are content hashes, so after a step that removed no node (and overwrote none: counted by the DB wrapper, never observed) only the root created by that step is read; after every finalize/rollback and after any step that removed a node all live roots are read again; replays read all live roots after every step",
 		}
 		if len(c.ReplayData) > 0 {
 			replay(c, menu)
@@ -1024,6 +1055,14 @@ func main() {
 		if coreDepth > 0 {
 			st2 := search(c, coreMenu, coreDepth, !*noShape)
 			c.Bound += fmt.Sprintf(" + all sequences of <= %d steps over the %d-step core alphabet (depth reached %d incl. cfg step, fixpoint=%v)", coreDepth-1, len(coreMenu)-4, st2.Depth, st2.Fixpoint)
+		}
+		if !c.Quick() && *depthFlag == 0 && *coreFlag < 0 {
+			// thorough only: the core alphabet plus the reverted-write block (a hash that is
+			// obsolete and new in one commit) one step shallower
+			core2 := subMenu(menu, append(append([]string{}, coreOps...), "block(S.k1 write+revert)"))
+			c.Set("core2_alphabet", opNames(core2))
+			st3 := search(c, core2, coreDepth-1, !*noShape)
+			c.Bound += fmt.Sprintf(" + all sequences of <= %d steps over the %d-step core alphabet extended with block(S.k1 write+revert) (depth reached %d incl. cfg step, fixpoint=%v)", coreDepth-2, len(core2)-4, st3.Depth, st3.Fixpoint)
 		}
 	})
 }
